@@ -466,6 +466,13 @@ func (e *Env) ProcessPushPullCtx(parent gocontext.Context, msg *model.PushPullMe
 	})
 }
 
+// PatchDocumentCtx is PatchDocument with a request context the caller can cancel while the handler is running.
+func (e *Env) PatchDocumentCtx(parent gocontext.Context, msg *model.PatchMessage, d time.Duration) (*model.PatchMessage, error, bool) {
+	return callWith(e, parent, d, msg, func(s model.OrdaServiceServer, ctx gocontext.Context, m *model.PatchMessage) (*model.PatchMessage, error) {
+		return s.PatchDocument(ctx, m)
+	})
+}
+
 // PatchDocument calls the service's PatchDocument. The third result reports a timeout.
 func (e *Env) PatchDocument(msg *model.PatchMessage, d time.Duration) (*model.PatchMessage, error, bool) {
 	return call(e, d, msg, func(s model.OrdaServiceServer, ctx gocontext.Context, m *model.PatchMessage) (*model.PatchMessage, error) {
